@@ -12,7 +12,9 @@ def source(rng):
     shapes = []
     for k in range(n_shapes):
         nm = r.randint(0, 3)
-        fields = r.sample(['a', 'b', 'c', 'd'], r.randint(1, 3))
+        # every shape has a field `a`, at a different slot from shape to shape
+        fields = r.sample(['b', 'c', 'd'], r.randint(0, 3))
+        fields.insert(r.randint(0, len(fields)), 'a')
         extra = ''.join('    x%d() { %d }\n' % (j, j) for j in range(nm))
         init = '    init() { ' + ' '.join('self.%s = "%s%d";' % (f, f, k) for f in fields) + ' }\n'
         parent = ''
@@ -23,11 +25,13 @@ def source(rng):
     lines = ['class Base { init() { self.z = "z"; } basefoo() { "base" } }']
     lines.append('fn call(o) { o.foo() }')
     lines.append('fn read(o) { o.get() }')
+    lines.append('fn rdA(o) { o.a }')
+    lines.append('fn wrA(o, v) { o.a = v; return o.a; }')
     lines.append('fn scrub(a, b, c, d, e, f, g, h) { let i = nil; let j = nil; let k = nil; let l = nil; nil }')
     lines.append('fn mk(i) {')
     for fields, text in shapes:
         lines.append(text)
-    lines.append('  class A { foo() { "last" } get() { "lastget" } }\n  return A();\n}')
+    lines.append('  class A { init() { self.z = "z"; self.a = "alast"; } foo() { "last" } get() { "lastget" } }\n  return A();\n}')
     use_mod = r.choice([2, 3])
     lines.append('let bad = 0;')
     lines.append('for i in %d.times() {' % iters)
@@ -37,7 +41,9 @@ def source(rng):
     lines.append('  let r1 = viaSite ? call(o) : o.foo();')
     lines.append('  let r2 = viaSite ? o.get() : read(o);')
     lines.append('  scrub(nil, nil, nil, nil, nil, nil, nil, nil);')
-    lines.append('  print(i, k, r1, r2);')
+    lines.append('  let r3 = viaSite ? rdA(o) : o.a;')
+    lines.append('  let r4 = viaSite ? o.a : wrA(o, "w${i}");')
+    lines.append('  print(i, k, r1, r2, r3, r4);')
     lines.append('}')
     lines.append('print("done");')
     return '\n'.join(lines) + '\n'
